@@ -12,7 +12,7 @@ CLAIMS = {
  "C05": ("Tie also symbolic: the relevant builders are traced on symbolic inputs and every traced entry is proved equal to the model's coefficient for all values (DESIGN 2.7). Theorems: matrix stencils = divergence of the explicit gradient/mean flux, cell by cell, all classes; TVD zero/unit-limiter identities "
          "(Props/C05.v); 7 correspondence suites; identity probes on the real code; zero-u_upwind edge is a known finding (refuted theorem)", "DESIGN.md 3, 4 (C05)"),
  "C06": ("Tie also symbolic: the relevant builders are traced on symbolic inputs and every traced entry is proved equal to the model's coefficient for all values (DESIGN 2.7). Theorems: diffusion of a constant is 0, central/upwind/TVD of a constant c is c*div(u) (Props/C06.v); suites + probes incl. sources-only solve", "DESIGN.md 4 (C06)"),
- "C02": ("Tie also symbolic: the relevant builders are traced on symbolic inputs and every traced entry is proved equal to the model's coefficient for all values (DESIGN 2.7). PARTIAL: convergence theorems are proved in the simplest configurations only (uniform Cartesian spacing; C02_convergence_cartesian_1D: uniform Cartesian axis, constant d, no advection, any closure of the comparison principle: |x_i - f(xi_i)| <= d max|f''''| h^2 / (12 min kap), from the Taylor remainder of the second difference (Coquelicot's Taylor-Lagrange; C02_taylor_second_difference, C02_taylor_cartesian_axis) and the stability theorem; the central convection stencil has its Taylor remainder too: C02_taylor_central_difference, C02_taylor_central_cartesian_axis, |u| max|f'''| h^2 / 6, consistency only; and the upwind stencil in interior cells: C02_taylor_upwind_cartesian_axis, |u| max|f''| h / 2, giving a second convergence theorem C02_convergence_upwind_cartesian_1D: upwind advection-diffusion, error <= (d max|f''''| h^2/12 + |u| max|f''| h/2) / min kap; and a third, C02_convergence_cartesian_nD: diffusion on uniform Cartesian grids of any dimension, error <= sum over axes of d max|4th derivative along the axis| h_a^2/12 / min kap); elsewhere the two halves of the Lax argument are proved separately and the Taylor remainder is not. Stability, every class and dimension, non-uniform spacing included (over R): the discrete solution is within max|truncation error| / min(alpha/dt+beta) of any field satisfying the rows up to that error (comparison principle; D>=0, upwind with divergence-free u; Dirichlet / no-flux / one-signed Robin / periodic closures; for non-periodic boundary objects the closure is derived from the boundary rows, so the statement is about fields satisfying the rows of the assembled system). Consistency (generic field): on uniform spacing the diffusion and central-advection stencils "
+ "C02": ("Tie also symbolic: the relevant builders are traced on symbolic inputs and every traced entry is proved equal to the model's coefficient for all values (DESIGN 2.7). PARTIAL: convergence theorems are proved in the simplest configurations only (uniform Cartesian spacing; C02_convergence_cartesian_1D: uniform Cartesian axis, constant d, no advection, any closure of the comparison principle: |x_i - f(xi_i)| <= d max|f''''| h^2 / (12 min kap), from the Taylor remainder of the second difference (Coquelicot's Taylor-Lagrange; C02_taylor_second_difference, C02_taylor_cartesian_axis) and the stability theorem; the central convection stencil has its Taylor remainder too: C02_taylor_central_difference, C02_taylor_central_cartesian_axis, |u| max|f'''| h^2 / 6, consistency only; and the upwind stencil in interior cells: C02_taylor_upwind_cartesian_axis, |u| max|f''| h / 2, giving a second convergence theorem C02_convergence_upwind_cartesian_1D: upwind advection-diffusion, error <= (d max|f''''| h^2/12 + |u| max|f''| h/2) / min kap; and a third, C02_convergence_cartesian_nD: diffusion on uniform Cartesian grids of any dimension, error <= sum over axes of d max|4th derivative along the axis| h_a^2/12 / min kap, with its upwind advection-diffusion counterpart C02_convergence_upwind_cartesian_nD); elsewhere the two halves of the Lax argument are proved separately and the Taylor remainder is not. Stability, every class and dimension, non-uniform spacing included (over R): the discrete solution is within max|truncation error| / min(alpha/dt+beta) of any field satisfying the rows up to that error (comparison principle; D>=0, upwind with divergence-free u; Dirichlet / no-flux / one-signed Robin / periodic closures; for non-periodic boundary objects the closure is derived from the boundary rows, so the statement is about fields satisfying the rows of the assembled system). Consistency (generic field): on uniform spacing the diffusion and central-advection stencils "
          "reproduce the continuous operator exactly on polynomial families separating every metric factor (Cartesian, cylindrical r incl. the axis cell, "
          "SphericalGrid1D exact-volume r, angular 1/r^2), SphericalGrid3D radial block with its exact O(h^2) remainder (Props/C02.v); the model is tied to every "
          "builder by the operator/bc/solve suites; manufactured-solution refinement on the implementation (9 classes x central/upwind x Dirichlet/Robin x "
